@@ -180,8 +180,37 @@ func mixedGraphConfigN(n int, kind func(i, j int) int, sharedNames bool) *cfg.Co
 	return c
 }
 
+// addInertParts adds things that look like dependencies but are none: decorators on the tag `*` (no service can carry
+// it) and on tags no service carries, with @service and !tagged arguments; requests for tags nobody carries.
+func addInertParts(r *rand.Rand, c *cfg.Config) {
+	if len(c.Services) == 0 {
+		return
+	}
+	sv := func() string { return "@" + c.Services[r.Intn(len(c.Services))].Name }
+	for k := 0; k < 1+r.Intn(3); k++ {
+		switch r.Intn(4) {
+		case 0:
+			c.Decorators = append(c.Decorators, cfg.Decorator{Tag: "*", Decorator: "pa.DecSame", Args: []cfg.Val{cfg.Str(sv())}})
+		case 1:
+			d := cfg.Decorator{Tag: "*", Decorator: "pa.DecSame", Args: []cfg.Val{cfg.Str(sv()), cfg.Str(sv())}}
+			for _, s := range c.Services {
+				if len(s.Tags) > 0 && r.Intn(2) == 0 {
+					d.Args = append(d.Args, cfg.Str("!tagged "+s.Tags[0].Name))
+					break
+				}
+			}
+			c.Decorators = append([]cfg.Decorator{d}, c.Decorators...)
+		case 2:
+			c.Decorators = append(c.Decorators, cfg.Decorator{Tag: fmt.Sprintf("carried-by-nobody%d", k), Decorator: "pa.DecSame", Args: []cfg.Val{cfg.Str(sv())}})
+		case 3:
+			s := &c.Services[r.Intn(len(c.Services))]
+			s.Args = append(s.Args, cfg.Str(fmt.Sprintf("!tagged nobody%d", k)))
+		}
+	}
+}
+
 func checkC07(c *Ctx) error {
-	c.Rule = "(a) all 512 digraphs on 3 parameters incl. self-loops (always); (b) all 512 @-digraphs on 3 services (always); (c) all 4^9 = 262 144 graphs on 3 services where every ordered pair is one of {none, @service, via !tagged, via decorator-on-tag} (thorough: all; quick: seeded sample of 6 000); (d) seeded sparse graphs on <=12 parameters and services with overlapping cycles, all edge kinds; a third of them also refer to services/parameters that are not declared and are built with both --ignore-missing-* flags. Each configuration runs through the real binary; the 'Circular dependencies' step must fail iff the reference relation has a cycle (Tarjan SCC), every reported line must be a closed walk of the relation, every element on a cycle must occur in a reported line. Accepted samples are compiled and executed: CircularDeps()==nil and every GetParam returns. distinct = distinct configuration; non-trivial = the relation has at least one edge"
+	c.Rule = "(a) all 512 digraphs on 3 parameters incl. self-loops (always); (b) all 512 @-digraphs on 3 services (always); (c) all 4^9 = 262 144 graphs on 3 services where every ordered pair is one of {none, @service, via !tagged, via decorator-on-tag} (thorough: all; quick: seeded sample of 6 000); a third of (c) and (d) also carry inert look-alikes: decorators on `*` and on tags nobody carries, with @service/!tagged arguments; (d) seeded sparse graphs on <=12 parameters and services with overlapping cycles, all edge kinds; a third of them also refer to services/parameters that are not declared and are built with both --ignore-missing-* flags. Each configuration runs through the real binary; the 'Circular dependencies' step must fail iff the reference relation has a cycle (Tarjan SCC), every reported line must be a closed walk of the relation, every element on a cycle must occur in a reported line. Accepted samples are compiled and executed: CircularDeps()==nil and every GetParam returns. distinct = distinct configuration; non-trivial = the relation has at least one edge"
 	c.Assumptions = []string{"reference relation engine/ref.BuildGraph (statement of C07)", "graphs whose largest strongly connected component exceeds 6 nodes are skipped (the statement's cost proviso) and counted"}
 	w := c.W
 	var jobs []*cfg.Config
@@ -221,6 +250,7 @@ func checkC07(c *Ctx) error {
 	}
 	// (c) mixed kinds
 	total := 262144
+	inert := 0
 	var picks []int
 	if c.Thorough() {
 		for m := 0; m < total; m++ {
@@ -234,7 +264,12 @@ func checkC07(c *Ctx) error {
 	}
 	for k, m := range picks {
 		mm := m
-		jobs = append(jobs, mixedGraphConfigN(3, func(i, j int) int { return (mm >> (2 * (i*3 + j))) & 3 }, k%2 == 1))
+		conf := mixedGraphConfigN(3, func(i, j int) int { return (mm >> (2 * (i*3 + j))) & 3 }, k%2 == 1)
+		if k%3 == 2 {
+			addInertParts(rand.New(rand.NewSource(c.Seed*13+int64(k))), conf)
+			inert++
+		}
+		jobs = append(jobs, conf)
 	}
 	c.Set("mixed_kind_graphs_run", len(picks))
 	c.Set("mixed_kind_graph_space", total)
@@ -264,6 +299,10 @@ func checkC07(c *Ctx) error {
 			}
 			conf.Params = append(conf.Params, cfg.KV{K: fmt.Sprintf("q%d", i), V: cfg.Str(v)})
 		}
+		if k%3 == 2 {
+			addInertParts(r, conf)
+			inert++
+		}
 		// proviso: moderate number of cycles
 		g := ref.BuildGraph(conf)
 		if len(g.ServicesOnCycle()) > 6 || len(g.ParamsOnCycle()) > 6 {
@@ -281,6 +320,7 @@ func checkC07(c *Ctx) error {
 		jobs = append(jobs, conf)
 	}
 	c.Set("random_graphs_skipped_many_cycles", skipped)
+	c.Set("graphs_with_inert_decorators_and_tags", inert)
 	c.Set("random_graphs_with_run_time_only_dependencies", len(flagged))
 	accepted := make([]bool, len(jobs))
 	Par(len(jobs), 16, func(i int) {
